@@ -105,3 +105,33 @@ function lookupGlobal (sortedTokens, line, col) {
 }
 
 module.exports = { TRAILER, splitTrailer, decodeMappings, decodeVlqSegment, validateEnvelope, indexByGenLine, lookupSameLine, lookupGlobal }
+
+// ---- encoding (for generated original maps) ----
+function encodeVlq (n) {
+  let v = n < 0 ? ((-n) << 1) | 1 : n << 1
+  let out = ''
+  do { let d = v & 31; v >>>= 5; if (v > 0) d |= 32; out += B64[d] } while (v > 0)
+  return out
+}
+// tokens: [{genLine, genCol, src?, srcLine?, srcCol?, name?}] -> mappings string
+function encodeMappings (tokens) {
+  const sorted = tokens.slice().sort((a, b) => a.genLine - b.genLine || a.genCol - b.genCol)
+  let out = ''
+  let line = 0
+  let prevCol = 0; let prevSrc = 0; let prevSrcLine = 0; let prevSrcCol = 0; let prevName = 0
+  let first = true
+  for (const t of sorted) {
+    while (line < t.genLine) { out += ';'; line++; prevCol = 0; first = true }
+    if (!first) out += ','
+    first = false
+    out += encodeVlq(t.genCol - prevCol); prevCol = t.genCol
+    if (t.src !== undefined) {
+      out += encodeVlq(t.src - prevSrc) + encodeVlq(t.srcLine - prevSrcLine) + encodeVlq(t.srcCol - prevSrcCol)
+      prevSrc = t.src; prevSrcLine = t.srcLine; prevSrcCol = t.srcCol
+      if (t.name !== undefined) { out += encodeVlq(t.name - prevName); prevName = t.name }
+    }
+  }
+  return out
+}
+module.exports.encodeVlq = encodeVlq
+module.exports.encodeMappings = encodeMappings
